@@ -107,6 +107,20 @@ var c18Templates = map[string]c18Template{
 			return out
 		},
 	},
+	// elements of a map symbol registered under a two-segment prefix, reached through nested keys: different readers
+	// resolve different nested element symbols of the same map at the same time
+	"map-nested-a": {
+		text:   func(v, n, t int) string { return `meta.a.x >= 0 and meta.a.x < 1000` },
+		expect: func(v, n, t int) []string { return c18All(n) },
+	},
+	"map-nested-b": {
+		text:   func(v, n, t int) string { return `meta.b.y = 100` },
+		expect: func(v, n, t int) []string { return []string{"e0"} },
+	},
+	"map-nested-c": {
+		text:   func(v, n, t int) string { return `meta.c.deeper.z = "zed" and meta.a.x != null` },
+		expect: func(v, n, t int) []string { return c18All(n) },
+	},
 	"sub-query": {
 		text:   func(v, n, t int) string { return `not isEmpty(from tlinks where name contains "target")` },
 		expect: func(v, n, t int) []string { return c18All(n) },
@@ -203,7 +217,7 @@ func readVersion(w *kit.World, c c18Case) (int, error) {
 		if count != c.Things {
 			return fmt.Errorf("version %d: set index lists %d entities for %s, expected %d", version, count, genRole(version), c.Things)
 		}
-		for _, sym := range []string{"roles", "tlinks", "tlinks.name", "name", "tags.x"} {
+		for _, sym := range []string{"roles", "tlinks", "tlinks.name", "name", "tags.x", "meta.a.x", "meta.c.deeper.z"} {
 			if st.GetSymbol(sym) == nil {
 				return fmt.Errorf("GetSymbol(%q) returned nil", sym)
 			}
@@ -280,6 +294,8 @@ func runC18(c c18Case) kit.Result {
 		return res
 	}
 	defer w.Close()
+	w.Stores["things"].AddMapSymbol("meta", ast.NodeTypeAnyType, "meta", "edge", "deep")
+	w.Stores["things"].MakeSymbolPublic("meta")
 	err = w.Z.Db.Update(kit.NewCtx(), func(ctx boltz.MutateContext) error {
 		for i := 0; i < c.Targets; i++ {
 			if err := w.Stores["targets"].Create(ctx, (&kit.EntSpec{Name: fmt.Sprintf("target-%d", i)}).ToEnt("targets", fmt.Sprintf("t%d", i))); err != nil {
@@ -290,6 +306,21 @@ func runC18(c c18Case) kit.Result {
 	})
 	if err == nil {
 		err = writeVersion(w, c, 1, true)
+	}
+	if err == nil {
+		// version-independent map data under things/<id>/edge/deep/meta/...
+		err = w.Z.Db.Update(kit.NewCtx(), func(ctx boltz.MutateContext) error {
+			for i := 0; i < c.Things; i++ {
+				b := boltz.GetOrCreatePath(ctx.Tx(), "root", "things", fmt.Sprintf("e%d", i), "edge", "deep", "meta")
+				b.GetOrCreatePath("a").SetInt64("x", int64(i), nil)
+				b.GetOrCreatePath("b").SetInt64("y", int64(100+i), nil)
+				b.GetOrCreatePath("c", "deeper").SetString("z", "zed", nil)
+				if b.HasError() {
+					return b.GetError()
+				}
+			}
+			return nil
+		})
 	}
 	if err != nil {
 		res.Err = fmt.Errorf("setup: %v", err)
